@@ -21,6 +21,19 @@ def shim_table(repo):
             for st in n.body:
                 if isinstance(st, ast.ImportFrom) and any(a.name == "wrap_objective" for a in st.names):
                     out[key] = "src/" + st.module.replace(".", "/") + ".py"
+    if out:
+        return out
+    # another spelling (a name -> module table and importlib): ask the function which module's wrap_objective it hands out
+    from .alg import RaisedInFragment
+    for key in SHIM_FILES:
+        try:
+            ext = {"get_backend": lambda a, k, key=key: (Obj("tensorlib", {"name": key, "precision": "64b"}), Obj("optimizer")),
+                   "import_module": lambda a, k: Obj("module", {"wrap_objective": Obj("shim:" + str(a[0]))})}
+            r = Interp({"importlib": Obj("importlib"), "pyhf": Obj("pyhf")}, {}, {}, externals=ext).call_function(f.node, [], {})
+        except (Undecided, RaisedInFragment, KeyError, TypeError, AttributeError):
+            continue
+        if isinstance(r, Obj) and r.name.startswith("shim:"):
+            out[key] = "src/" + r.name[5:].replace(".", "/") + ".py"
     return out
 
 
@@ -50,15 +63,25 @@ def run_shim(repo, relpath, do_grad):
         run.events.append(("stitch", to_poly(args[0])))
         return Poly.atom(f"STITCH<{to_poly(args[0])}>")
 
+    def _two(args, kw, n0, n1):
+        # the library's own parameter names: torch.autograd.grad(outputs, inputs), tape.gradient(target, sources)
+        a0 = args[0] if len(args) > 0 else kw.get(n0)
+        a1 = args[1] if len(args) > 1 else kw.get(n1)
+        if a0 is None or a1 is None:
+            raise Undecided(f"gradient call without ({n0}, {n1})")
+        return a0, a1
+
     def grad(args, kw):
-        run.events.append(("grad", to_poly(args[0]), to_poly(args[1])))
-        run.grad_calls.append(("grad", to_poly(args[0]), to_poly(args[1])))
-        return [Poly.atom(f"GRAD<{to_poly(args[0])};{to_poly(args[1])}>")]
+        y_, x_ = _two(args, kw, "outputs", "inputs")
+        run.events.append(("grad", to_poly(y_), to_poly(x_)))
+        run.grad_calls.append(("grad", to_poly(y_), to_poly(x_)))
+        return [Poly.atom(f"GRAD<{to_poly(y_)};{to_poly(x_)}>")]
 
     def gradient(recv, args, kw):
-        run.events.append(("grad", to_poly(args[0]), to_poly(args[1])))
-        run.grad_calls.append(("gradient", to_poly(args[0]), to_poly(args[1])))
-        return Poly.atom(f"GRAD<{to_poly(args[0])};{to_poly(args[1])}>")
+        y_, x_ = _two(args, kw, "target", "sources")
+        run.events.append(("grad", to_poly(y_), to_poly(x_)))
+        run.grad_calls.append(("gradient", to_poly(y_), to_poly(x_)))
+        return Poly.atom(f"GRAD<{to_poly(y_)};{to_poly(x_)}>")
 
     def watch(recv, args, kw):
         run.events.append(("watch", to_poly(args[0])))
@@ -126,7 +149,10 @@ def run_shim_history(repo, relpath, do_grad):
         return Poly.atom("STITCH<" + snap(args[0]) + ">")
 
     def grad(args, kw):
-        return [Poly.atom(f"GRAD<{snap(args[0])}>")]
+        y_ = args[0] if args else kw.get("outputs", kw.get("target"))
+        if y_ is None:
+            raise Undecided("gradient call without its outputs")
+        return [Poly.atom(f"GRAD<{snap(y_)}>")]
 
     def jitted(name):
         def f(args, kw):
